@@ -38,6 +38,12 @@ class Interpreter {
         continue;
       }
       this.impl.start_evaluating(line);
+      if (this.impl.get_state() === JsInterpreterState.Errored) {
+        // The line couldn't be stored. Stop loading here: `start()` will
+        // show the error, and evaluating anything else before the error
+        // has been taken would trip an assertion in the interpreter.
+        return;
+      }
     }
     this.impl.start_evaluating("RUN");
   }
